@@ -35,14 +35,48 @@ def W():
     return w
 
 
+class RetainingSink:
+    """A sink that keeps the very objects it was handed (as a gathering / queueing sink does: asyncio's socket transport
+    under back-pressure appends the data object to its deque) next to a copy taken at the time of the write."""
+
+    def __init__(self):
+        self.refs, self.snap = [], []
+
+    def write(self, data):
+        self.refs.append(data)
+        self.snap.append(bytes(data))
+        return len(data)
+
+    def getvalue(self):
+        return b"".join(self.snap)
+
+    def still_intact(self):
+        return all(bytes(r) == s for r, s in zip(self.refs, self.snap))
+
+
+_PREV = []  # (sink, description) of the previous writer call of this process
+ALIASED = {}  # writer name -> example: what was written by an earlier call changed when a later call wrote
+
+
 def wr(fn, *a):
-    """call writer fn(buffer, *a) -> ('ok', bytes) | ('exc', e, bytes written so far)"""
-    b = io.BytesIO()
+    """call writer fn(buffer, *a) -> ('ok', bytes) | ('exc', e, bytes written so far).  The sink retains the written
+    objects; what an EARLIER call wrote must not change when this call writes (no shared scratch handed to the sink)."""
+    b = RetainingSink()
     try:
         fn(b, *a)
-        return ("ok", b.getvalue())
+        out = ("ok", b.getvalue())
     except BaseException as e:  # noqa: BLE001
-        return ("exc", e, b.getvalue())
+        out = ("exc", e, b.getvalue())
+    name = getattr(fn, "__name__", "writer")
+    for sink, desc in _PREV:
+        if not sink.still_intact():
+            ALIASED.setdefault(desc[0], {"earlier_call": desc, "later_call": [name, repr(a)[:80]], "written_then": sink.getvalue().hex()[:80],
+                                         "object_now": b"".join(bytes(r) for r in sink.refs).hex()[:80]})
+    if not b.still_intact():
+        ALIASED.setdefault(name, {"earlier_call": [name, repr(a)[:80]], "later_call": "the same call", "written_then": b.getvalue().hex()[:80],
+                                  "object_now": b"".join(bytes(r) for r in b.refs).hex()[:80]})
+    _PREV[:] = [(b, [name, repr(a)[:80]])]
+    return out
 
 
 def rd(fn, data):
@@ -522,7 +556,15 @@ def run_c11(tier):
 
 def _dispatch(t):
     fn, arg = t
-    return fn(arg)
+    ALIASED.clear()
+    _PREV.clear()
+    res = fn(arg)
+    for n, (name, ex) in enumerate(sorted(ALIASED.items())):
+        v = violation("C11", "aliasing", f"C11/{name}/written-object-changes-when-a-later-call-writes", name, ex,
+                      "the bytes handed to the sink stay what they were", f"{ex['written_then']} became {ex['object_now']}", (10**9, n))
+        res["violations"].append(v)
+        res["sig_counts"][v["signature"]] = 1
+    return res
 
 
 # ---------------------------------------------------------------------------------------
@@ -587,6 +629,12 @@ def c12_run(order_name):
     types_.append(("i32Timedelta", p.i32Timedelta, lambda v: isinstance(v, datetime.timedelta) and i32min <= v <= i32max, tds + [0, 1.0, None, "0", E]))
     types_.append(("i64Timedelta", p.i64Timedelta, lambda v: isinstance(v, datetime.timedelta) and i64min <= v <= i64max, tds + [0, 1.0, None, "0", E]))
     types_.append(("TZAware", p.TZAware, is_aware_ms, dts + [0, 1.0, None, "1970", datetime.date(1970, 1, 1), datetime.timedelta(0)]))
+    if hasattr(p, "TZAwareMicros"):
+        # the record classes' timestamp type (same domain without the whole-millisecond condition); not named by the
+        # property's list, checked against its own documentation because C17 / C18 build on it
+        types_.append(("TZAwareMicros", p.TZAwareMicros,
+                       lambda v: isinstance(v, datetime.datetime) and v.tzinfo is not None and v.tzinfo.utcoffset(v) is not None and (v - bridge.EPOCH) >= datetime.timedelta(0),
+                       dts + [0, 1.0, None, "1970", datetime.date(1970, 1, 1), datetime.timedelta(0)]))
     if order_name == "reversed":
         types_ = [(n, t, m, list(reversed(v))) for n, t, m, v in reversed(types_)]
     n = 0
